@@ -118,7 +118,9 @@ def finish(ctx, mod, status, message, wall, repo, verif, known, verbose=False):
         'sources_sha256': ctx.interp.files_read,
         'samples': samples,
         'bounded': getattr(ctx, 'bounded', []),
-        'notes': ctx.notes,
+        'notes': ctx.notes + ([f'cvc5 cross-check of z3 unsat verdicts ({"all" if ctx.tier == "thorough" else "10 % sample"}): '
+                               f'{ctx.xcheck.get("unsat", 0)} confirmed unsat, {ctx.xcheck.get("unknown", 0)} not decided by '
+                               f'cvc5 within 4 s, {ctx.xcheck.get("sat", 0)} disagreements'] if ctx.xcheck else []),
         'status': status,
         'message': message,
         'explanation': 'contract-based deductive verification: verification conditions generated by symbolic '
